@@ -175,7 +175,25 @@ struct Geo {
     norm_bad: u64,
     first_bad: Option<Value>,
     cells: Vec<u64>,
+    /// disc / ball: counts of u <= t (centre) and u > 1 - t (shell) for u = r^2 resp. r^3, which is uniform on [0,1]
+    radial: Vec<u64>,
     max_norm_err: f64,
+}
+
+pub const RADIAL_INNER: [f64; 5] = [1.1920928955078125e-7, 1e-6, 1e-5, 1e-4, 1e-3];
+pub const RADIAL_OUTER: [f64; 3] = [1e-5, 1e-4, 1e-3];
+
+fn radial_count(r: &mut [u64], u: f64) {
+    for (i, t) in RADIAL_INNER.iter().enumerate() {
+        if u <= *t {
+            r[i] += 1;
+        }
+    }
+    for (i, t) in RADIAL_OUTER.iter().enumerate() {
+        if u > 1.0 - *t {
+            r[RADIAL_INNER.len() + i] += 1;
+        }
+    }
 }
 
 fn cell(u: f64, k: usize) -> usize {
@@ -194,7 +212,7 @@ macro_rules! geo_run {
                 "unit_sphere" => 256,
                 _ => 512,
             };
-            let mut g = Geo { samples: 0, nan: 0, norm_bad: 0, first_bad: None, cells: vec![0; ncell], max_norm_err: 0.0 };
+            let mut g = Geo { samples: 0, nan: 0, norm_bad: 0, first_bad: None, cells: vec![0; ncell], radial: vec![0; 8], max_norm_err: 0.0 };
             let tau = core::f64::consts::TAU;
             for it in 0..n {
                 if it & 0xfffff == 0 {
@@ -238,6 +256,7 @@ macro_rules! geo_run {
                         }
                         let a = y.atan2(x) / tau + 0.5;
                         g.cells[cell(r2, 16) * 16 + cell(a, 16)] += 1;
+                        radial_count(&mut g.radial, r2);
                     }
                     "unit_sphere" => {
                         let p: [$F; 3] = UnitSphere.sample(rng);
@@ -276,6 +295,7 @@ macro_rules! geo_run {
                         let a = y.atan2(x) / tau + 0.5;
                         let zc = if r > 0.0 { (z / r + 1.0) / 2.0 } else { 0.5 };
                         g.cells[(cell(r2 * r, 8) * 8 + cell(zc, 8)) * 8 + cell(a, 8)] += 1;
+                        radial_count(&mut g.radial, r2 * r);
                     }
                 }
             }
@@ -309,7 +329,7 @@ pub fn run_c12(job: &Value) {
         });
         match r {
             Caught::Ok((g, words)) => emit(&json!({"ev": "c12", "key": cj["key"], "fam": which, "ty": ty, "n": n, "seed": seed, "gen": generator, "words": words, "samples": g.samples, "nan": g.nan,
-                "norm_bad": g.norm_bad, "first_bad": g.first_bad, "cells": g.cells, "max_norm_err_in_eps": g.max_norm_err})),
+                "norm_bad": g.norm_bad, "first_bad": g.first_bad, "cells": g.cells, "radial": g.radial, "max_norm_err_in_eps": g.max_norm_err})),
             Caught::Panic(m) => emit(&json!({"ev": "c12_panic", "key": cj["key"], "msg": m})),
             _ => {}
         }
